@@ -339,7 +339,7 @@ def exception_to_python(
     :raises SecurityError: exception isn't indeed an exception
     :return: decoded exception or None
     """
-    if not exc:
+    if exc is None:
         return None
 
     if isinstance(exc, BaseException):
